@@ -107,6 +107,48 @@ def r9_2(ctx, R, ms, counter_field):
                "%d push events on feasible paths; unguarded: %s" % (npush, ev_str(bad[0]) if bad else "-"))
 
 
+def r9_4(ctx, R, counter, head):
+    ctx.rule("R9.4", "the limit reaches the storage unchanged: starting from the bounded constructors the adapters call, every "
+                     "crate constructor (`new` / `with_capacity` returning a crate collection, slot map or waker list) that is "
+                     "called on the way receives the caller's own capacity parameter, unmodified (no min / max / clamp / "
+                     "arithmetic); the slot map's empty constructor builds exactly `capacity` free slots (C02 R2.7)")
+    start = set()
+    for b in ctx.facts.fn_bodies():
+        for bb, t, fn in b.calls():
+            nm = fn_name(fn) if fn else ""
+            if fn and re.search(r"Futures(Unordered|Ordered)Bounded::<.*>::new$", nm or "") and callee_body(ctx.facts, fn) is not None:
+                start.add(callee_body(ctx.facts, fn).path)
+    seen = set()
+    work = sorted(start)
+    n = 0
+    while work:
+        p = work.pop()
+        if p in seen:
+            continue
+        seen.add(p)
+        b = ctx.facts.bodies.get(p)
+        if b is None:
+            continue
+        fl = ctx.flow(b)
+        caps = [i for i in range(1, b.arg_count + 1) if b.locals[i] == "usize"]
+        for bb, t, fn in b.calls():
+            cb = callee_body(ctx.facts, fn)
+            if cb is None or b.is_cleanup(bb) or not re.search(r"::(new|with_capacity)$", cb.path):
+                continue
+            uargs = [a for a in t["args"] if (a["place"]["ty"] if a["k"] in ("copy", "move") else a.get("ty")) == "usize"]
+            if len(uargs) != 1 or not caps:
+                continue
+            n += 1
+            e = strip_refs(fl.operand_expr(uargs[0]))
+            ok = e[0] == "param" and e[1] in caps
+            ctx.ob("R9.4", b, "passes-its-own-capacity-to:%s" % cb.path.split("::<")[0].split("::")[-1] + "@" + _site_label(b, bb), ok, b.loc(bb), expr_str(e))
+            work.append(cb.path)
+    ctx.floor("R9.4", "constructor-calls-on-the-capacity-chain", n, 3)
+    import c02
+    c02.r2_7(ctx, R, counter, head)
+    ctx.rule("R2.7", "see C02 R2.7 (shared): the slot map's empty constructor builds slots 1..=capacity as a free list; checked lookup")
+
+
 def _same_queue(l, r, qfield):
     return (("." + qfield) in repr(l)) == (("." + qfield) in repr(r)) if qfield else True
 
@@ -172,5 +214,6 @@ def run(ctx):
     r9_1(ctx, R, ms)
     r9_2(ctx, R, ms, counter)
     r9_3(ctx, R, ms)
+    r9_4(ctx, R, counter, head)
     import shared_links
     shared_links.adapter_links(ctx, R, counter, head)
